@@ -942,3 +942,18 @@ def c8_uncapture_order(fb, rep, clause):
         rep.ob(clause, 'K10 call-order agreement', 'getUnMoves: un-capture moves the black king first and the white king last', not bad, '%s:%s' % (gu.file, t.get('ln')),
                'guard %s; %s' % (show(t['cond'], 60), sorted(set(bad))[:2]), gu.sname)
     rep.floor(clause, 'un-capture order decisions in getUnMoves', found, 1)
+    # the same two constraints where a whole position is placed: TBPosition::setPosition (probe path only - the generated
+    # table is unaffected, every probe of a position with a real piece on the black king's initial index square is)
+    sp = fb.find1('TBPosition::setPosition')
+    if rep.need(clause, sp, 'TBPosition::setPosition') is not None:
+        calls = [(b, i, e) for b, i, e in sp.events() if e.get('k') == 'call' and cname(e) == 'TBIndex::setSquare' and e.get('args')]
+        bk = [c for c in calls if ap(_strip12(c[2]['args'][0])) == 'this.nWhite']
+        wk = [c for c in calls if (_strip12(c[2]['args'][0]) or {}).get('cv') == 0]
+        other = [c for c in calls if c not in bk and c not in wk]
+        rep.floor(clause, 'piece placements in TBPosition::setPosition', len(other), 1)
+        ok_b = bool(bk) and all(sp.path_avoiding((sp.entry, -1), lambda x, _e=c[2]: x is _e, lambda x: any(x is k_[2] for k_ in bk)) is None for c in other + wk)
+        rep.ob(clause, 'K10 call-order agreement', 'setPosition places the black king before any other piece (moving it later drags the pieces standing on its old square)', ok_b,
+               R.site(sp, (bk or calls)[0][2]), '%d black-king placement(s), %d other' % (len(bk), len(other)), sp.sname)
+        ok_w = bool(wk) and all(sp.path_avoiding((c[0], c[1]), lambda x: any(x is k_[2] for k_ in other + bk), lambda x: False) is None for c in wk)
+        rep.ob(clause, 'K10 call-order agreement', 'setPosition places the white king last (placing it mirrors the board)', ok_w,
+               R.site(sp, (wk or calls)[0][2]), '%d white-king placement(s)' % len(wk), sp.sname)
